@@ -125,11 +125,18 @@ class _NullYaml(io.StringIO):
     name = "<yaml>"
 
 
+class _NoYAML:
+    def __init__(self, *a, **k):
+        pass
+
+    def dump(self, data, stream=None):
+        return None
+
+
 def run_inspect(path, arch=None, lines=None, fixed=False, ignore_unknown=False, lcd_timeout=None,
                 want_dict="direct", extra=()):
-    # want_dict: "yaml"   inspect() itself produces the dict and dumps it as YAML (slow: pure-python YAML)
-    #            "direct" after inspect() returned, the recorded Frontend's public full_analysis_dict is
-    #                     called with the recorded kernel / KernelDG and the same warning flags
+    # want_dict: "yaml"   inspect() produces the dict and dumps it as YAML (slow: pure-python YAML)
+    #            "direct" inspect() produces the dict; the YAML class it would dump with is replaced by a no-op
     #            None     text report only
     """Run the real osaca.osaca.inspect in this process on file `path`.
     Returns dict(ok, text, dict, lcds, timed_out, error, argv)."""
@@ -157,16 +164,21 @@ def run_inspect(path, arch=None, lines=None, fixed=False, ignore_unknown=False, 
         ap = oo.create_parser()
         args = ap.parse_args(argv)
         oo.check_arguments(args, ap)
+        real_yaml = oo.YAML
         if want_dict == "yaml":
             args.yaml_out = _NullYaml()  # inspect() then calls full_analysis_dict itself and dumps YAML
+        elif want_dict == "direct":
+            # inspect() itself calls full_analysis_dict (recorded by the Frontend stand-in); only the
+            # slow pure-python YAML serialisation is replaced by a no-op collaborator
+            args.yaml_out = _NullYaml()
+            oo.YAML = _NoYAML
         try:
-            oo.inspect(args, output_file=out)
+            try:
+                oo.inspect(args, output_file=out)
+            finally:
+                oo.YAML = real_yaml
             if want_dict == "yaml":
                 res["yaml_text"] = args.yaml_out.getvalue()
-            elif want_dict == "direct" and "fe" in _REC:
-                kw = {k: v for k, v in _REC["text_kwargs"].items()
-                      if k in ("arch_warning", "length_warning", "lcd_warning")}
-                _REC["fe"].full_analysis_dict(_REC["kernel"], _REC["dg"], **kw)
         finally:
             try:
                 args.file.close()
